@@ -90,3 +90,15 @@ for nf in ('bogus', 'set', 'defaults', 'inches', ''):
              params=dict(cls=Const(U.PreferredUnits, src='PreferredUnits'), kwargs=DictOf(distance=OpaqueStr(nf))),
              ensures=[('unknown-name-leaves-the-setting-unchanged', 'PreferredUnits.distance is old(PreferredUnits.distance)')],
              modifies=[])
+
+# history: the setter, then a new configuration (the by-value copy of a module global taken at import time would
+# freeze the default; C18: "the global default-step setter affects only calculators created afterwards")
+SF = 'verif:contracts/specfn.py'
+contract(f'{SF}::default_step_of_a_configuration_created_after_the_setter', props=('C18',),
+         params=dict(v=Real(lo=0, lo_open=True, hi=100)),
+         ensures=[('a-configuration-created-after-the-setter-has-the-new-default-step', 'result == v')],
+         modifies=['<global _globalMaxCalcStepSizeFeet>', '<global _globalUsePowderSensitivity>', '*._defined_units'])
+contract(f'{SF}::step_of_a_configuration_created_before_the_setter', props=('C18',),
+         params=dict(v=Real(lo=0, lo_open=True, hi=100)),
+         ensures=[('a-configuration-created-before-the-setter-keeps-its-step', 'result[0] == result[1]')],
+         modifies=['<global _globalMaxCalcStepSizeFeet>', '<global _globalUsePowderSensitivity>', '*._defined_units'])
